@@ -3,13 +3,11 @@ module verifharness
 go 1.23
 
 require (
+	github.com/mdzio/go-logging v1.0.0
 	github.com/mdzio/go-mqtt v0.0.0
 	pgregory.net/rapid v1.3.0
 )
 
-require (
-	github.com/gorilla/websocket v1.5.0 // indirect
-	github.com/mdzio/go-logging v1.0.0 // indirect
-)
+require github.com/gorilla/websocket v1.5.0 // indirect
 
 replace github.com/mdzio/go-mqtt => /repo
